@@ -187,7 +187,9 @@ fn replay_tree(args: &Args) {
                 out.mismatch(bi, si, "StateTreeUpdatingDatabase leaves", json!(exp_leaves.len()), json!("differs"));
             }
             if let Some((m, _)) = merkle.as_mut() {
-                m.commit(&u);
+                if let Err(e) = catch(|| m.commit(&u)) {
+                    out.mismatch(bi, si, "RocksDBWithMerkleTree commit panic", json!("ok"), json!(e));
+                }
                 if m.get_current_root_hash().0 != exp_root {
                     out.mismatch(bi, si, "RocksDBWithMerkleTree root", json!(hex::encode(exp_root)), json!(hex::encode(m.get_current_root_hash().0)));
                 }
@@ -271,7 +273,12 @@ fn crash(args: &Args) {
             let mut m = RocksDBWithMerkleTreeSubstateStore::standard(next.clone());
             WRITE_OPS.store(0, Ordering::SeqCst);
             WRITE_LOG.lock().unwrap().clear();
-            m.commit(&u);
+            if let Err(e) = catch(|| m.commit(&u)) {
+                // a commit that panics without a simulated stop: recorded as an event no action of
+                // TraceMerkleCommit matches (the trace is rejected there)
+                out.emit(&json!({"a": "commit-panic", "step": si, "msg": e, "upd": uj}));
+                break;
+            }
             let w_total = WRITE_OPS.load(Ordering::SeqCst);
             let log: Vec<String> = WRITE_LOG.lock().unwrap().clone();
             drop(m);
